@@ -142,8 +142,15 @@ class Run:
                 else:
                     env[name] = make_value(ctx, kind, name)
 
+        def at1(v, k):
+            if isinstance(v, SArr):
+                return v.fn(k)
+            if isinstance(v, tuple):
+                return tuple(at1(x, k) for x in v)
+            return v
+
         def at_k0(e, k):
-            return {a: (v.fn(k) if isinstance(v, SArr) and variant == "array" else v) for a, v in e.items()}
+            return {a: (at1(v, k) if variant == "array" else v) for a, v in e.items()}
         # requires
         for r in c.requires:
             if variant == "array":
